@@ -1123,6 +1123,9 @@ func runConcKind(r *hx.Run, kind string, rng *hx.Rng) string {
 	if kind == "rgate" {
 		return runRGate(r, rng)
 	}
+	if kind == "upgrade" {
+		return runUpgrade(r, rng)
+	}
 	if kind == "mixed" {
 		return runMixed(r, rng)
 	}
@@ -1137,9 +1140,9 @@ func runConcKind(r *hx.Run, kind string, rng *hx.Rng) string {
 }
 
 func concPart(r *hx.Run) {
-	nc, nm, nwide, ngate, nrgate := 200*r.Scale, 120*r.Scale, 8*r.Scale, 300*r.Scale, 300*r.Scale
+	nc, nm, nwide, ngate, nrgate, nupg := 200*r.Scale, 120*r.Scale, 8*r.Scale, 300*r.Scale, 300*r.Scale, 400*r.Scale
 	slow := map[string]int{}
-	for i := 0; i < nc+nm+nwide+ngate+nrgate; i++ {
+	for i := 0; i < nc+nm+nwide+ngate+nrgate+nupg; i++ {
 		rng, sub := r.Rng.Fork()
 		r.Case(sub)
 		kind := "counter"
@@ -1155,6 +1158,9 @@ func concPart(r *hx.Run) {
 		if i >= nc+nm+nwide+ngate {
 			kind = "rgate"
 		}
+		if i >= nc+nm+nwide+ngate+nrgate {
+			kind = "upgrade"
+		}
 		if slow[kind] >= 3 {
 			// three rounds of this kind ran into a watchdog: the finding is recorded, do not spend the time limit on more
 			r.Count("conc:skipped-after-watchdogs." + kind)
@@ -1168,7 +1174,7 @@ func concPart(r *hx.Run) {
 		}
 		r.Line(line, "accept")
 		r.Count("op:conc." + kind)
-		if i < 2 || i == nc || i == nc+nm+nwide+ngate {
+		if i < 2 || i == nc || i == nc+nm+nwide+ngate || i == nc+nm+nwide+ngate+nrgate {
 			if len(line) > 300 {
 				line = line[:300] + "…"
 			}
